@@ -304,7 +304,7 @@ def oracle(case, rec):
     return relational(case, rec)
 
 
-REL = dict(zero_weight_rows=0, weight_scale=0, idempotent=0, shift=0, rescale=0, scaled_vs_base=0)
+REL = dict(zero_weight_rows=0, weight_scale=0, idempotent=0, shift=0, rescale=0, scaled_vs_base=0, unit_weights=0)
 
 
 def relational(case, rec):
@@ -376,7 +376,16 @@ def relational(case, rec):
         elif abs(a) >= 1 and not guard_margin(case)[1] and not guard_margin(c2)[1] and not guard_margin(c2)[0]:
             # C11_rescale_accepted: blowing the data up never turns accepted into rejected
             return "fit rejects the data rescaled by %r although it accepts the original" % a
-    # rows of weight zero are ignored (C11_zero_weight_rows_ignored): overwrite them
+    # unit weights == no weights (C11_integer_weights_replicate, every multiplicity 1)
+    if case["w"] is None or all(x == 1.0 for x in case["w"]):
+        REL["unit_weights"] = REL.get("unit_weights", 0) + 1
+        r2 = run_impl(case, w=[1.0] * n if case["w"] is None else None)
+        if r2["raised"]:
+            if not guard_margin(case)[1]:
+                return "fit with unit sample weights raises, the unweighted fit does not (or conversely)"
+        elif np.any(np.abs(np.array(r2["mean"]) - rec["mean"]) > 1e-9 * colmax) or \
+                np.any(np.abs(np.array(r2["scale"]) - s) > 1e-8 * np.abs(s) * (1 + 1e-6 * np.max(colmax / np.abs(s)))):
+            return "mean_/scale_ with unit sample weights differ from the unweighted fit"
     if case["w"] is not None and any(x == 0 for x in case["w"]):
         X2 = X.copy()
         for i, wi in enumerate(case["w"]):
@@ -439,6 +448,65 @@ def gen_par(rng):
                 rtol=rng.choice([0, 0, 1e-6, 1e-3, 0.25]), atol=rng.choice([1e-12, 1e-12, 1e-8, 1e-3, 2.0]))
 
 
+ROUTES = ["fit", "fit", "fit_transform", "fit_transform", "pipeline"]
+
+
+def gen_route(rng, n, routes=ROUTES):
+    """by which public entry point, and with which of the optional arguments, the estimator is fitted:
+    fit / fit_transform / a sklearn Pipeline with step-routed sample_weight, each with y absent, 1-D or 2-D
+    (y is documented as ignored; the model has no such argument), weights by keyword or (fit only) position"""
+    route = rng.choice(routes)
+    yk = rng.choice(["none", "none", "1d", "2d"])
+    y = None if yk == "none" else ([rng.gauss(0, 1) for _ in range(n)] if yk == "1d"
+                                   else [[rng.gauss(0, 1), rng.gauss(0, 1)] for _ in range(n)])
+    return dict(route=route, y=y, w_positional=(route == "fit" and rng.random() < 0.3))
+
+
+def call_fit(sc, op, X, w):
+    """perform the fit of one trace op by its route; returns the returned matrix (fit_transform) or None"""
+    y = None if op.get("y") is None else np.array(op["y"], dtype=float)
+    route = op.get("route", "fit")
+    if route == "fit":
+        if op.get("w_positional"):
+            sc.fit(X, y, w)
+        elif w is None:
+            sc.fit(X) if y is None else sc.fit(X, y)
+        else:
+            sc.fit(X, sample_weight=w) if y is None else sc.fit(X, y, sample_weight=w)
+        return None
+    if route == "fit_transform":
+        kw = {} if w is None else dict(sample_weight=w)
+        return sc.fit_transform(X, **kw) if y is None else sc.fit_transform(X, y, **kw)
+    from sklearn.pipeline import Pipeline
+    pipe = Pipeline([("scaler", sc), ("final", "passthrough")])        # no memory: the step is fitted in place
+    kw = {} if w is None else dict(scaler__sample_weight=w)
+    pipe.fit(X, y, **kw)
+    if pipe.named_steps["scaler"] is not sc:
+        raise RuntimeError("Pipeline cloned the scaler step")
+    return None
+
+
+def gen_tall_trace(rng):
+    """more than 1024 rows (blocked / chunked accumulation paths), few columns, spread and level drifting along
+    the rows; unweighted, unit weights or random weights; one fit and one transform of new data"""
+    n = rng.choice([1025, 1500, 2049, 4097, 5000])
+    d = rng.randint(1, 2)
+    par0 = dict(with_mean=rng.random() < 0.6, with_std=rng.random() < 0.9, column_wise=rng.random() < 0.5,
+                rtol=rng.choice([0, 0, 1e-6]), atol=1e-12)
+    cols = []
+    for j in range(d):
+        sc_, off = 10 ** rng.uniform(-2, 2), rng.choice([0.0, rng.uniform(-5, 5)])
+        pw, drift = rng.choice([1, 2, 3]), rng.choice([0.0, 0.0, rng.uniform(-3, 3)])
+        cols.append([sc_ * (off + drift * i / n + (0.2 + 4.0 * i / n) ** pw * rng.gauss(0, 1)) for i in range(n)])
+    X = [[cols[j][i] for j in range(d)] for i in range(n)]
+    wkind = rng.choice(["none", "none", "none", "unit", "random"])
+    w = None if wkind == "none" else ([1.0] * n if wkind == "unit" else [rng.uniform(0.05, 2.0) for _ in range(n)])
+    op = dict(op="fit", X=X, w=w, wkind="uniform" if wkind == "unit" else wkind, family="tall", wextra={},
+              Yprobe=[[rng.gauss(0, 3) for _ in range(d)] for _ in range(2)], **gen_route(rng, n, ["fit", "fit", "pipeline"]))
+    M = [[rng.gauss(0, 1) * 10 ** rng.uniform(-1, 1) for _ in range(d)] for _ in range(2)]
+    return dict(par0=par0, ops=[op, dict(op="transform", M=M)], tall=True)
+
+
 def gen_trace(rng, quick):
     nmax, dmax = (6, 3) if quick else (10, 4)
     par0 = gen_par(rng)
@@ -463,7 +531,7 @@ def gen_trace(rng, quick):
             else:
                 w = gen_w(rng, n, wkind)
             ops.append(dict(op="fit", X=X, w=w, wkind=wkind, family=fam, wextra=extra,
-                            Yprobe=[[rng.gauss(0, 3) for _ in range(d)] for _ in range(2)]))
+                            Yprobe=[[rng.gauss(0, 3) for _ in range(d)] for _ in range(2)], **gen_route(rng, n)))
             if n >= 2:
                 width = d
         else:
@@ -507,10 +575,12 @@ def run_trace_impl(trace):
                 w = None if op["w"] is None else np.array(op["w"], dtype=float)
                 case = dict(par, X=op["X"], w=op["w"], Y=op["Yprobe"], wkind=op["wkind"], **op.get("wextra", {}))
                 try:
-                    sc.fit(X.copy(), sample_weight=w)
+                    ret = call_fit(sc, op, X.copy(), w)
                 except ValueError as e:
                     probe = dict(case=case, rec=dict(raised=True, msg=str(e)))
                     raise
+                if op.get("route") == "fit_transform":
+                    kind, mat = 3, np.asarray(ret, dtype=float).tolist()
                 try:
                     Y = np.array(op["Yprobe"], dtype=float)
                     TY = sc.transform(Y.copy())
@@ -566,11 +636,18 @@ def trace_coq(trace, obs, fn="sof_trace_ok"):
         else:
             M = op["M"]
             o = "%s %d %d %s" % ("FTransform" if op["op"] == "transform" else "FInverse", len(M), len(M[0]), C.fmat(M))
-        b = "SofObs %d %s %s %d %d %s %s %s" % (
-            ob["kind"], C.fmat(ob["mat"]), "true" if ob["fitted"] else "false", ob["n"], ob["d"],
-            "true" if ob["arr"] else "false", C.fmat([ob["mean"]]) if ob["fitted"] else "[]",
-            C.fmat([ob["scale"]]) if ob["fitted"] else "[]")
-        items.append("(%s, %s)" % (o, b))
+        def obs_coq(kind, mat):
+            return "SofObs %d %s %s %d %d %s %s %s" % (
+                kind, C.fmat(mat), "true" if ob["fitted"] else "false", ob["n"], ob["d"],
+                "true" if ob["arr"] else "false", C.fmat([ob["mean"]]) if ob["fitted"] else "[]",
+                C.fmat([ob["scale"]]) if ob["fitted"] else "[]")
+        if op["op"] == "fit" and ob["kind"] == 3:
+            # fit_transform(X, ...) returned a matrix: in the model that is fit followed by transform(X)
+            items.append("(%s, %s)" % (o, obs_coq(0, [])))
+            X = op["X"]
+            items.append("(FTransform %d %d %s, %s)" % (len(X), len(X[0]), C.fmat(X), obs_coq(3, ob["mat"])))
+        else:
+            items.append("(%s, %s)" % (o, obs_coq(ob["kind"], ob["mat"])))
     return "%s %s %s [%s]" % (fn, C.fl(TOL), par_coq(trace["par0"]), "; ".join(items))
 
 
@@ -591,7 +668,13 @@ def trace_diag(ctx, trace, obs):
         return "diagnosis unavailable"
     vals = [x.strip() == "true" for x in mm.group(1).split(";")]
     bad = [i for i, v in enumerate(vals) if not v]
-    return "first differing call: #%d (%s)" % (bad[0], trace["ops"][bad[0]]["op"]) if bad else "no call differs"
+    if not bad:
+        return "no call differs"
+    names = []
+    for op, ob in zip(trace["ops"], obs):
+        nm = "%s[%s]" % (op["op"], op.get("route", "")) if op["op"] == "fit" else op["op"]
+        names += [nm, nm + ": returned matrix"] if (op["op"] == "fit" and ob["kind"] == 3) else [nm]
+    return "first differing step: #%d (%s)" % (bad[0], names[bad[0]] if bad[0] < len(names) else "?")
 
 
 def trace_oracle(trace, obs):
@@ -602,10 +685,14 @@ def trace_oracle(trace, obs):
             return "call #%d: fit on fewer than 2 samples does not raise ValueError" % i
         if "probe" in ob and ob["probe"]["rec"].get("broken"):
             return "call #%d: after an accepted fit, transform of data of the fitted width fails (%s)" % (i, ob["probe"]["rec"]["broken"])
+        if op["op"] == "fit" and ob["kind"] == 3 and "TX" in ob.get("probe", {}).get("rec", {}):
+            TXp, ret = np.array(ob["probe"]["rec"]["TX"]), np.array(ob["mat"])
+            if TXp.shape != ret.shape or not np.array_equal(TXp, ret):
+                return "call #%d: fit_transform(X, ...) returns something else than transform(X) of the estimator it fitted" % i
         if "probe" in ob and len(op["X"]) >= 2:
             msg = oracle(ob["probe"]["case"], ob["probe"]["rec"])
             if msg:
-                return "call #%d (fit on a used estimator): %s" % (i, msg)
+                return "call #%d (%s, %d rows): %s" % (i, op.get("route", "fit"), len(op["X"]), msg)
             state = ob["probe"]
         if op["op"] in ("transform", "inverse"):
             M = np.array(op["M"], dtype=float)
@@ -701,9 +788,21 @@ def run_traces(ctx, po):
     traces, obss = [], []
     st = dict(traces=0, calls=0, gated=0, kinds={}, rejected_refits=0, refits=0, width_changes=0,
               param_changes_between_fits=0, mismatched=0, failing_inputs=0)
-    for _ in range(ntr):
-        tr = gen_trace(ctx.rng, ctx.quick)
+    ntall_coq, ntall = (3, 12) if ctx.quick else (10, 60)
+    st.update(routes={}, tall=0, tall_in_coq=0, tall_sizes={})
+    for t in range(ntr + ntall):
+        tr = gen_trace(ctx.rng, ctx.quick) if t < ntr else gen_tall_trace(ctx.rng)
         ob = run_trace_impl(tr)
+        if tr.get("tall"):
+            st["tall"] += 1
+            tr["in_coq"] = st["tall"] <= ntall_coq
+            sz = str(len(tr["ops"][0]["X"]))
+            st["tall_sizes"][sz] = st["tall_sizes"].get(sz, 0) + 1
+        for op in tr["ops"]:
+            if op["op"] == "fit":
+                key = "%s(y=%s,w=%s)" % (op["route"], "no" if op["y"] is None else ("1d" if not isinstance(op["y"][0], list) else "2d"),
+                                          "no" if op["w"] is None else ("pos" if op["w_positional"] else "kw"))
+                st["routes"][key] = st["routes"].get(key, 0) + 1
         if trace_gated(tr, ob):
             st["gated"] += 1
             continue
@@ -725,6 +824,9 @@ def run_traces(ctx, po):
     st["traces"] = len(traces)
     groups, shards, cur_g, cur_items, size = [], [], [], [], 0
     for i in range(len(traces)):
+        if traces[i].get("tall") and not traces[i]["in_coq"]:
+            continue                                   # tall cases beyond the first few: Python oracle only (size of the literals)
+        st["tall_in_coq"] += bool(traces[i].get("tall"))
         item = trace_coq(traces[i], obss[i])
         if cur_g and (size + len(item) > 250000 or len(cur_g) >= 300):
             groups.append(cur_g)
@@ -747,7 +849,7 @@ def run_traces(ctx, po):
     # failing inputs first (they are what a maintainer needs), then bare correspondence breaks
     pending = []
     for i in range(len(traces)):
-        if i not in bad and po["ok"]:
+        if i not in bad and po["ok"] and not traces[i].get("tall"):
             continue
         msg = trace_oracle(traces[i], obss[i])
         rep = dict(case=dict(trace=traces[i]), observed=[{k: v for k, v in o.items() if k != "probe"} for o in obss[i]])
